@@ -1,9 +1,175 @@
 import StraxModel.Driver.Parse
+import StraxModel.Model.Net
+import StraxModel.Model.PostOffice
+/-
+  Driver ops of property C06.
+
+  `c06.wire <allowLazy> <maxWorkers|-> <maxMessages> <targets> <loaders> <defs> <plugins> <savers>`
+      targets   data types joined by `,`
+      loaders   `-` | `name:chunks` joined by `,`
+      defs      plugin instances joined by `;` : `cls|provides(.)|depends_on(.)|max_messages or -|chunks`
+      plugins   `components.plugins` in dict order: `datatype=defIndex` joined by `,`
+      savers    `components.savers` in dict order: `datatype=numberOfSavers` joined by `,`   (`-` = empty dict)
+    answer: `ok <mailbox>;<mailbox>;… # <thread>;<thread>;…`
+      mailbox = `key|lazy|max_messages|can_drive bits|thread names joined by ,`   (creation order of the dict)
+      thread  = `name<sub+sub…>{flow_freely}` with sub = `mailboxkey@subscriberIndex` (threads in join order, `main` last)
+
+  `c06.po <op>;<op>;…`   (a script against one PostOffice; one answer token per op, then the final state)
+      `P:<topics .>:<registered . or ->:<script>`  register_producer; script = `-` | instrs joined by `,`:
+                                                  `g<k>` = next() on the k-th `_read` generator, `y` = yield, `x<e>` = raise e
+      `S:<topic>:<failSave|->:<failClose 0/1>:<exc>`  register_spy(SaverSpy(saver))
+      `I:<topic>:<reader>`                           get_iter (the generators are numbered in creation order)
+      `N:<g>`                                        next() on generator g
+      `K`                                            kill_spies()
+      `R:<topic>:<consumer>`                         SingleThreadProcessor.iter() with `topic` as target (its reader is
+                                                     "FINAL" = reader 99, its generator gets the next index); consumer =
+                                                     `d` (drain) | `t<k>.<e>` (throw e after k messages) | `c<k>` (close after k)
+-/
+namespace Strax.Driver.C06
+open Strax
+
+/-! ### c06.wire -/
+open Strax.Net in
+def parseLoader (s : String) : Option (String × List SInstr) :=
+  match s.splitOn ":" with
+  | [n, k] => do pure (n, List.replicate (← k.toNat?) SInstr.emit)
+  | _ => none
+
+open Strax.Net in
+/-- a generic stage program: read every dependency, emit; at the end read every dependency once more -/
+def genericProg (ndeps chunks : Nat) : List SInstr :=
+  let reads := (List.range ndeps).map SInstr.read
+  (List.replicate chunks (reads ++ [SInstr.emit])).flatten ++ reads
+
+open Strax.Net in
+def parseDef (s : String) : Option PluginD :=
+  match s.splitOn "|" with
+  | [cls, prov, deps, mm, chunks] => do
+    let mm ← if mm == "-" then some none else mm.toNat?.map some
+    let deps := splitList deps "."
+    pure { cls := cls, provides := splitList prov ".", dependsOn := deps, maxMessages := mm,
+           prog := genericProg deps.length (← chunks.toNat?) }
+  | _ => none
+
+def parseKV (s : String) : Option (String × Nat) :=
+  match s.splitOn "=" with
+  | [k, v] => do pure (k, ← v.toNat?)
+  | _ => none
+
+open Strax.Net in
+def showWire (net : Net) : String :=
+  let mbName (i : Nat) : String := (net.mbs[i]?.map (·.name)).getD "?"
+  let mbs := net.mbs.map fun m =>
+    s!"{m.name}|{if m.lazy then "1" else "0"}|{m.cap}|{String.ofList (m.drive.map fun b => if b then '1' else '0')}|{",".intercalate m.threads}"
+  let ths := net.threads.map fun t =>
+    let subs := "+".intercalate (t.subs.map fun (i, s) => s!"{mbName i}@{s}")
+    t.name ++ "<" ++ subs ++ ">{" ++ "+".intercalate t.free ++ "}"
+  s!"ok {";".intercalate mbs} # {";".intercalate ths}"
+
+open Strax.Net in
+def wireOp (lazy mw mm targets loaders defs plugins savers : String) : Option String := do
+  let allowLazy ← parseBool lazy
+  let mw ← if mw == "-" then some none else mw.toNat?.map some
+  let mm ← mm.toNat?
+  let loaders ← (splitList loaders ",").mapM parseLoader
+  let defs ← (splitList defs ";").mapM parseDef
+  let plugins ← (splitList plugins ",").mapM parseKV
+  let savers ← (splitList savers ",").mapM parseKV
+  let c : Components := { plugins := plugins, defs := defs, loaders := loaders,
+                          savers := savers.map (fun (d, n) => (d, List.replicate n {})), targets := splitList targets "," }
+  pure (showWire (wire c { allowLazy := allowLazy, maxWorkers := mw, maxMessages := mm } .drain))
+
+/-! ### c06.po -/
+open Strax.PostOffice
+
+def parsePInstr (s : String) : Option PInstr :=
+  if s == "y" then some .yield
+  else if s.startsWith "g" then (s.drop 1).toString.toNat?.map .pull
+  else if s.startsWith "x" then (s.drop 1).toString.toNat?.map .raise
+  else none
+
+def showExc : Exc → String
+  | .inj i => s!"Injected[{i}]"
+  | e => e.kind
+
+def showRes : Res → String
+  | .msg v => s!"m{v}"
+  | .stop => "stop"
+  | .raised e => s!"err({showExc e})"
+  | .fuel => "fuel"
+
+def dots (l : List Nat) : String := if l.isEmpty then "_" else ".".intercalate (l.map toString)
+
+def showOutcome : Outcome → String
+  | .finished got => s!"fin({dots got})"
+  | .raised e none => s!"raised({showExc e})"
+  | .raised e (some c) => s!"raised({showExc e}<{showExc c})"
+  | .closed got => s!"closed({dots got})"
+  | .fuel => "fuel"
+
+def showTopic (t : Topic) : String :=
+  let readers := if t.readers.isEmpty then "_" else "+".intercalate (t.readers.map fun (r, c) => s!"{r}={c}")
+  let spies := if t.spies.isEmpty then "_" else "+".intercalate (t.spies.map fun s => s!"{if s.closed then "c" else "o"}{s.saved}")
+  s!"{t.id}:saved={dots t.saved}:prod={t.produced}:readers={readers}:done={dots t.done}:exh={if t.exhausted then "1" else "0"}:spies={spies}"
+
+def parseConsumer (s : String) : Option Consumer :=
+  if s == "d" then some .drain
+  else if s.startsWith "c" then (s.drop 1).toString.toNat?.map .closeAt
+  else if s.startsWith "t" then
+    match (s.drop 1).toString.splitOn "." with
+    | [k, e] => do pure (.throwAt (← k.toNat?) (← e.toNat?))
+    | _ => none
+  else none
+
+def poFuel : Nat := 100000
+
+/-- run one op; `none` = malformed -/
+def poOp (po : PO) (op : String) : Option (PO × String) :=
+  match op.splitOn ":" with
+  | ["P", topics, registered, script] => do
+    let ts ← (splitList topics ".").mapM (·.toNat?)
+    let reg ← (splitList registered ".").mapM (·.toNat?)
+    let sc ← (splitList script ",").mapM parsePInstr
+    match po.registerProducer sc ts reg with
+    | .ok po' => pure (po', "ok")
+    | .error e =>
+      -- the generator object exists even though the registration failed (keeps the numbering aligned)
+      pure ({ po with producers := po.producers ++ [{ script := sc }] }, s!"err({showExc e})")
+  | ["S", topic, fs, fc, exc] => do
+    let fs ← if fs == "-" then some none else fs.toNat?.map some
+    pure (po.registerSpy (← topic.toNat?) { failSave := fs, failClose := ← parseBool fc, exc := ← exc.toNat? }, "ok")
+  | ["I", topic, reader] => do
+    pure (po.getIter (← topic.toNat?) (← reader.toNat?), "ok")
+  | ["N", g] => do
+    let (po', r) := readNext poFuel po (← g.toNat?)
+    pure (po', showRes r)
+  | ["K"] =>
+    match po.killSpies with
+    | (po', some e) => some (po', s!"err({showExc e})")
+    | (po', none) => some (po', "ok")
+  | ["R", topic, c] => do
+    -- `iter()` creates its own reader: `self.post_office.get_iter(topic=target, reader="FINAL")` (reader 99 here)
+    let po1 := po.getIter (← topic.toNat?) 99
+    let (po', out) := procIter poFuel po1 (po1.gens.length - 1) (← parseConsumer c) poFuel []
+    pure (po', showOutcome out)
+  | _ => none
+
+def poRun (ops : List String) : Option String := do
+  let (po, toks) ← ops.foldlM (fun (acc : PO × List String) op => do
+    let (po', tok) ← poOp acc.1 op
+    pure (po', acc.2 ++ [tok])) (({} : PO), [])
+  pure s!"ok {",".intercalate toks} | {" ".intercalate (po.topics.map showTopic)}"
+
+end Strax.Driver.C06
+
 namespace Strax.Driver
 open Strax
 
-/-- ops of property C06 (stub: no ops yet) -/
+/-- ops of property C06 -/
 def handleC06 : List String → Option String
+  | ["c06.wire", lazy, mw, mm, targets, loaders, defs, plugins, savers] =>
+    C06.wireOp lazy mw mm targets loaders defs plugins savers
+  | ["c06.po", ops] => C06.poRun (ops.splitOn ";")
   | _ => none
 
 end Strax.Driver
